@@ -9,6 +9,7 @@ import (
 	"io"
 	"os"
 	"os/exec"
+	"regexp"
 	"runtime"
 	"sync"
 	"syscall"
@@ -48,13 +49,13 @@ type Cmd struct {
 	StdoutPath string
 }
 
-var panicMarkers = [][]byte{
-	[]byte("panic: "),
-	[]byte("fatal error: "),
-	[]byte("goroutine 1 ["),
-	[]byte("runtime.gopanic"),
-	[]byte("SIGSEGV"),
-}
+// A crash of the Go runtime is recognised by its shape, not by words a diagnostic may well contain: the stack header
+// `goroutine N [running]:` at the start of a line, or `panic: ` / `fatal error: ` at the start of a line together with the
+// runtime's exit status 2.
+var (
+	reGoroutine = regexp.MustCompile(`(?m)^goroutine \d+ \[[^\]\n]*\]:`)
+	rePanicLine = regexp.MustCompile(`(?m)^(panic|fatal error): `)
+)
 
 // Run runs bin with c and waits (at most c.Timeout, default 10 s).
 func Run(bin string, c Cmd) Result {
@@ -197,11 +198,8 @@ func Run(bin string, c Cmd) Result {
 			r.Stderr = append(r.Stderr, []byte("\nverif: cannot run: "+err.Error())...)
 		}
 	}
-	for _, m := range panicMarkers {
-		if bytes.Contains(r.Stderr, m) {
-			r.Panic = true
-			break
-		}
+	if reGoroutine.Match(r.Stderr) || (r.Exit == 2 && rePanicLine.Match(r.Stderr)) {
+		r.Panic = true
 	}
 	// a panic inside a String / Error method is recovered by fmt and printed in place of the value: in a result that is
 	// garbage passed on as data (inside a diagnostic of a run that fails properly it is only an ugly message)
